@@ -58,11 +58,13 @@ fn parse_infix(naming: NamingK, infix: &str) -> Option<(Role, (u8, String, i64))
         None => (infix, -1),
     };
     // the format must reproduce the text exactly (no sloppy matches)
-    match chrono::NaiveDateTime::parse_from_str(main, fmt) {
+    // (the sort key is the point in time, not the text: a format need not sort chronologically)
+    let sortable = match chrono::NaiveDateTime::parse_from_str(main, fmt) {
         Ok(parsed) => {
             if parsed.format(fmt).to_string() != main {
                 return None;
             }
+            parsed.format("%Y%m%d%H%M%S%.6f").to_string()
         }
         Err(_) => {
             // a format without time of day
@@ -70,9 +72,10 @@ fn parse_infix(naming: NamingK, infix: &str) -> Option<(Role, (u8, String, i64))
             if d.format(fmt).to_string() != main {
                 return None;
             }
+            d.format("%Y%m%d").to_string()
         }
-    }
-    Some((Role::Rotated, (0, main.to_string(), restart)))
+    };
+    Some((Role::Rotated, (0, sortable, restart)))
 }
 
 /// Classifies a file name; `None` = foreign. `starttime` is the expected start-time part
